@@ -1222,3 +1222,67 @@ def _reference_names():
         except Exception:
             _REF_NAMES = {}
     return _REF_NAMES
+
+
+# ------------------------------------------------------------------------------------------------ statement form
+class _Statementise(ast.NodeTransformer):
+    """`x = A if c else B` -> if/else assignments; `return A if c else B` -> if/else returns (recursively).
+    Applied on top of the normal form it gives a third, equally faithful view in which decisions are statements:
+    rules that walk branches statement-wise read it directly."""
+
+    def _expand(self, st, value, make):
+        if isinstance(value, ast.IfExp):
+            body = self._expand(st, value.body, make)
+            orelse = self._expand(st, value.orelse, make)
+            return [_loc(ast.If(test=value.test, body=body, orelse=orelse), st)]
+        return [make(value)]
+
+    def _block(self, body):
+        out = []
+        for st in body:
+            st = self.visit(st)
+            if isinstance(st, ast.Assign) and isinstance(st.value, ast.IfExp):
+                out += self._expand(st, st.value, lambda v, st=st: _loc(ast.Assign(targets=copy.deepcopy(st.targets), value=v), st))
+            elif isinstance(st, ast.Return) and isinstance(st.value, ast.IfExp):
+                out += self._expand(st, st.value, lambda v, st=st: _loc(ast.Return(value=v), st))
+            else:
+                out.append(st)
+        return out
+
+    def generic_visit(self, node):
+        super().generic_visit(node)
+        for f in ("body", "orelse", "finalbody"):
+            b = getattr(node, f, None)
+            if isinstance(b, list) and b and isinstance(b[0], ast.stmt):
+                setattr(node, f, self._block(b))
+        return node
+
+
+class StatementNormalizer:
+    """Wraps a Normalizer: the normal form with statement-level conditional expressions written as if-statements."""
+
+    def __init__(self, inner: Normalizer):
+        self.inner = inner
+        self.P = inner.P
+        self.stats = inner.stats
+        self._cache: Dict[int, ast.Module] = {}
+
+    def module(self, tree: ast.Module, modname: Optional[str] = None) -> ast.Module:
+        base = self.inner.module(tree, modname)
+        hit = _STMT_CACHE.get(id(base))
+        if hit is not None and hit[0] is base:
+            return hit[1]
+        out = ast.fix_missing_locations(_Statementise().visit(copy.deepcopy(base)))
+        if len(_STMT_CACHE) > 4000:
+            _STMT_CACHE.clear()
+        _STMT_CACHE[id(base)] = (base, out)
+        return out
+
+    def _module(self, tree):
+        return ast.fix_missing_locations(_Statementise().visit(self.inner._module(tree)))
+
+    def __getattr__(self, name):
+        return getattr(self.inner, name)
+
+
+_STMT_CACHE: Dict[int, tuple] = {}
